@@ -532,8 +532,14 @@ CHECK = {
     "manifest": {
         "text": "Coq theorems about a state-machine model of LeastSquares<T> (buffers that grow but never shrink, in-place weighting, "
                 "both estimate paths with Eigen's solvers as contract-bound oracles): normal equations, Pythagoras => global and unique "
-                "minimiser, weighted variant, affine preconditioner, SVD path = Cholesky path under the contract, and history "
-                "independence for every op sequence; tied to the source by running the extracted model against the real class on "
+                "minimiser; weighted variant proved in full (row r of J and Y scaled by w_r in place => weighted normal equations "
+                "J^T W^2 (J z - Y) = 0 and unique minimiser of sum (w_r r_r)^2 on the rows as written; a second call without rewriting "
+                "the rows squares the weights); affine preconditioner A z + b on the Cholesky, SVD and weighted paths; SVD path = "
+                "Cholesky path under the contracts (premise: eps * sigma_max < sigma_min); result independent of which right inverse "
+                "the LDLT oracle returns; history independence for every op sequence, and the headline stated on the caller's lists "
+                "(any history, then load rows/ys/ws + preconditioner, then any estimator => A z + b with z the unique minimiser of that "
+                "problem); tied to the source by running the extracted "
+                "model against the real class on "
                 "generated op sequences, plus an exact-rational normal-equation oracle on the implementation's outputs.",
         "note": "Trusted: Coq kernel, real-number axioms, the hand-written model (tied only by differential execution), extraction, float "
                 "dictionaries, harness and oracle. Eigen's decompositions are not verified: they appear as hypotheses.",
